@@ -188,6 +188,50 @@ def mon_c03(m, payload):
         exp_cwell = e_prod * nprod + e_inj * ninj
         if not mv.close(Cwell, exp_cwell, RT, 1e-12):
             fails.append(('wells/user_fixed_sum', f'wellfield cost {Cwell!r}, expected per-well costs x wells = {exp_cwell!r}'))
+    elif type(ec).__name__ == 'SBTEconomics':
+        # closed-loop (SBT) well field: vertical sections from the published curve at the vertical section length, laterals per section
+        # (half price when uncased), the two inclined legs to the junction (EavorLoop only); 5 % indirect costs are inside each part here
+        corr = int(_f(inp, 'Well Drilling Cost Correlation') or 10)
+        per_m_v = _f(inp, 'All-in Vertical Drilling Costs') or 1000.0
+        per_m_l = _f(inp, 'All-in Nonvertical Drilling Costs')
+        adj_p = _f(inp, 'Well Drilling and Completion Capital Cost Adjustment Factor')
+        adj_i = _f(inp, 'Injection Well Drilling and Completion Capital Cost Adjustment Factor')
+        if adj_i is None:
+            adj_i = adj_p if adj_p is not None else 1.0
+        if adj_p is None:
+            adj_p = 1.0
+        vert_m = float(wb.vertical_section_length.quantity().to('m').magnitude)
+        e_prod = 1.05 * R.well_cost_MUSD(corr, vert_m, per_m_v, adj_p)
+        if not mv.close(c_prod, e_prod, RT, 1e-12):
+            fails.append((f'sbt/wells/curve/{corr}/production', f'vertical production section cost {c_prod!r}, 1.05 x curve {corr} at {vert_m} m x {adj_p} gives {e_prod!r}'))
+        e_inj = e_prod if ninj > 0 else 0.0
+        if not mv.close(c_inj, e_inj, RT, 1e-12):
+            fails.append(('sbt/wells/injection', f'vertical injection section cost {c_inj!r}, expected the production figure {e_inj!r} (0 without injection wells)'))
+        junction = float(V(ec, 'cost_to_junction_section')) if mv.has(ec, 'cost_to_junction_section') else 0.0
+        config = getattr(wb.Configuration.value, 'name', str(wb.Configuration.value))
+        if 'Number of Multilateral Sections' in inp and config != 'VERTICAL':
+            nsec = float(V(wb, 'numnonverticalsections'))
+            lat_m = float(V(wb, 'tot_lateral_m'))
+            casing = 1.0 if bool(V(wb, 'NonverticalsCased')) else 0.5
+            sec_m = lat_m / nsec
+            if per_m_l is not None:
+                e_lat = casing * nsec * per_m_l * sec_m * 1e-6
+            else:
+                e_lat = casing * nsec * R.well_cost_MUSD(corr, sec_m, float(V(ec, 'Nonvertical_drilling_cost_per_m')), 1.0)
+            e_lat *= 1.05 * adj_p
+        else:
+            e_lat = 0.0
+        if not mv.close(lateral, e_lat, RT, 1e-12):
+            fails.append(('sbt/wells/laterals', f'lateral sections cost {lateral!r}, expected {e_lat!r} ({config}, {inp.get("Number of Multilateral Sections")} sections)'))
+        if config == 'EAVORLOOP' and 'Number of Multilateral Sections' in inp:
+            e_j = 1.05 * R.well_cost_MUSD(corr, float(V(wb, 'tot_to_junction_m')), per_m_v, adj_i)
+        else:
+            e_j = 0.0
+        if not mv.close(junction, e_j, RT, 1e-12):
+            fails.append(('sbt/wells/junction', f'junction legs cost {junction!r}, expected {e_j!r} ({config})'))
+        exp_cwell = c_prod * nprod + c_inj * ninj + lateral + junction
+        if not mv.close(Cwell, exp_cwell, RT, 1e-12):
+            fails.append(('sbt/wells/sum', f'wellfield cost {Cwell!r}, expected vertical sections x wells + laterals + junction legs = {exp_cwell!r}'))
     else:
         ci = c_inj if ninj > 0 else 0.0
         exp_cwell = 1.05 * (c_prod * nprod + ci * ninj + lateral)
@@ -241,11 +285,14 @@ def _metrics_consistent(fails, prefix, cf, cum, rate_pct, excel, npv_r, irr_pct,
     if not mv.close(npv_r, e_npv, 1e-9, 1e-9 * scale):
         fails.append((f'{prefix}/npv', f'reported NPV {npv_r!r}; series discounted at {rate_pct}% gives {e_npv!r}'))
     if irr_pct != 0 and math.isfinite(irr_pct):
+        # "zeroes the NPV" is judged relative to the size of the discounted terms: at strongly negative rates the terms reach 1e37 and an
+        # absolute residual says nothing (thorough C04, district heating, IRR -94 %: residual 5e20 on terms of 1e38 is a root to 1e-18)
         try:
             resid = R.npv(irr_pct / 100.0, cf, False)
+            mag = math.fsum(abs(c) / abs(1 + irr_pct / 100.0) ** t for t, c in enumerate(cf))
         except (ZeroDivisionError, OverflowError):
-            resid = math.inf
-        if not abs(resid) < 1e-6 * scale * len(cf):
+            resid, mag = math.inf, 1.0
+        if not abs(resid) <= 1e-7 * max(mag, scale):
             fails.append((f'{prefix}/irr', f'reported IRR {irr_pct!r} % does not zero the NPV of the reported series (residual {resid!r})'))
     if vir is not None:
         e_vir = 1.0 + e_npv / capex if capex != 0 else math.nan
